@@ -77,8 +77,10 @@ inline std::string op_mt(Tokens& tk) {
   }
   const auto ns = static_cast<std::size_t>(tk.integer());
   for (std::size_t i = 0; i != ns; ++i) {
-    const auto ok = tk.integer() != 0;
-    b->script.push_back({ok, tk.dbl()});
+    // 0: integration failure, 1: success, 2: success with non finite forces
+    const auto ok = tk.integer();
+    b->script.push_back({ok != 0, tk.dbl()});
+    b->poison.push_back(ok == 2 ? 1 : 0);
   }
   const auto n = m.unknowns();
   if (aan != "none") {
